@@ -49,6 +49,10 @@ def run(chk: Check, proj: Project) -> None:
     s5_accessors(chk, proj, ["CONTEXT_BEHAVIOR"], rule="S8")
     s10_mode_source(chk, proj, w)
     s12_layer_frame(chk, proj, w)
+    from . import C01 as _C01
+
+    chk.borrow("S14", "the slot's original content printed through `{{ default }}` sees ITS component's variables: every key that SlotNode.render overrides with the parent component's value on the shared Context (`component_vars` among them) is re-established by the SlotRef (shared with C01-S12)",
+               lambda sub: _C01.s12b_slotref_keys(sub, proj))
     from . import C06, C07
 
     chk.borrow("S13", "the Context a fill is rendered in belongs to ONE render: no module-level Context / Template object ('the empty outer context, created once') is handed to render code - every fill rendered through it would push its variables onto the same object, so concurrently active fills (two threads, or a render started from inside a slot function) see and pop each other's variables (shared with C07-S1-G)",
